@@ -632,6 +632,10 @@ def normal_eq(n, d, r):
     if k == "record":
         if not isinstance(r, dict) or set(r) != {f.name for f in n.fields}:
             return False
+        if set(d) - {f.name for f in n.fields} - {"-type"}:
+            # dropping keys of the datum is not a documented normalisation: a datum with fields this
+            # record does not have was not written "as this record" (matters at unions of records)
+            return False
         for f in n.fields:
             if f.name in d:
                 if not normal_eq(f.type, d[f.name], r[f.name]):
